@@ -141,6 +141,8 @@ def _work(item):
             res.counters["harness_errors"] = 1
     finally:
         leaked = seams.restore_globals()
+    for v in res.violations:
+        v.setdefault("unit", case)
     if leaked:
         res.count("module_global_leaks_restored", 1)
     res.counters["cpu_s"] = res.counters.get("cpu_s", 0) + (time.time() - t0)
@@ -319,6 +321,17 @@ def run_check(mod, prop, tier, seed, args):
         for pname, v, path in replay_paths[:CONFIRM_MAX]:
             cp = subprocess.run([os.path.join(VERIF, "check"), prop, "--replay", path],
                                 capture_output=True, text=True)
+            if cp.returncode != 1 and v.get("unit") is not None and v["unit"] != v["replay"]:
+                # the minimal case did not reproduce (the failure needs the history the work unit
+                # built up): fall back to replaying the whole work unit
+                with open(path) as f:
+                    body = json.load(f)
+                body["replay"] = v["unit"]
+                body["note"] = "minimal case did not reproduce alone; this replays the whole work unit"
+                with open(path, "w") as f:
+                    json.dump(body, f, indent=1, sort_keys=True, default=repr)
+                cp = subprocess.run([os.path.join(VERIF, "check"), prop, "--replay", path],
+                                    capture_output=True, text=True)
             if cp.returncode == 1:
                 confirmed += 1
             else:
